@@ -98,8 +98,9 @@ CHECKS = {
               "input, with the learning phase off the function is round-half-even; power-of-two variant: threshold and mean identity. "
               "Correspondence: tf.random.uniform is replaced by injected draws (0, frac-ulp, frac, frac+ulp, 1/2, 1-2^-24, random) and the "
               "implementation is compared exactly with a float32-faithful threshold model; phase 0 is compared bitwise with the deterministic "
-              "configuration, stochastic_binary/ternary with binary/ternary. Two genuine defects were repaired (fix: commits)."),
-        design_ref="DESIGN.md section 5 C08, section 10",
+              "configuration, stochastic_binary/ternary with binary/ternary. Two genuine defects were repaired (fix: commits)."
+              " stochastic_round is REGENERATED on every run (tools/translate/stochgen.py -> coq/gen/StochGen.v) and Link/StochLink.v proves that at precision 1 it is the integer model sround for every rational input and every draw, so the theorems are about the code (C08_code_stochastic_round_is_the_model, C08_code_result_is_floor_or_ceil)."),
+        design_ref="DESIGN.md section 5 C08, section 10, section 10.10",
         note=(TB_COMMON + "K.learning_phase/K.set_learning_phase are harness stubs (absent under the pinned Keras 3: known finding). "
               "The only probabilistic assumption is that P(u <= t) = t for the uniform law; a 4096-draw statistical run is included as a test, not as proof."),
         technique="Coq proof with the random draw universally quantified + derandomised differential correspondence"),
@@ -237,8 +238,9 @@ CHECKS = {
               "prefer_qadaptiveactivation switch, parameter stripping and total_bits of an adaptive entry, proved to be a conservative extension of the base function; "
               "directed models contain every weighted layer kind with and without a bias. The ReLU-layer branch is modelled too (Convert/Relu.v, a conservative "
               "extension again): a Keras ReLU layer is looked up under its name, then under QActivation; a plain string converts it, a per-activation map converts it only "
-              "through the key its slope selects (relu / leakyrelu), QAdaptiveActivation entries never touch it; plain, leaky and capped ReLU layers are generated in rotation."),
-        design_ref="DESIGN.md section 5 C12, section 10, section 10.10",
+              "through the key its slope selects (relu / leakyrelu), QAdaptiveActivation entries never touch it; plain, leaky and capped ReLU layers are generated in rotation."
+              " The ReLU-layer branch itself is REGENERATED on every run (tools/translate/relugen.py -> coq/gen/ReluGen.v, abstract execution over class / config keys x slope sign x lookup result) and Link/ReluLink.v proves its outcome equal to convert_relu for every dictionary, layer and slope sign; C12_source_leakyrelu_never_converted states the LeakyReLU finding about the regenerated code."),
+        design_ref="DESIGN.md section 5 C12, section 10, section 10.10 ",
         note=(TB_COMMON + "Keras model (re)construction is runtime behaviour outside the model. Recurrent, Bidirectional, BatchNormalization and "
               "folded layers are not generated (they do not build under the pinned Keras 3); SeparableConv and LeakyReLU conversions are "
               "known findings."),
